@@ -505,11 +505,11 @@ def run(tier):
         ],
         assumptions=['dict iteration is insertion ordered; sorted() is '
                      'stable (Python language guarantees)'])
-    rule_r1_sets(chk, prog)
-    rule_r1_calls(chk, prog)
-    rule_r2(chk, prog)
-    rule_r3(chk, prog)
-    rule_r4(chk, prog)
+    chk.guard(rule_r1_sets, chk, prog)
+    chk.guard(rule_r1_calls, chk, prog)
+    chk.guard(rule_r2, chk, prog)
+    chk.guard(rule_r3, chk, prog)
+    chk.guard(rule_r4, chk, prog)
     extra = None
     if tier == 'thorough':
         from .. import selftest
